@@ -198,6 +198,8 @@ func init() {
 		Not: "Byte-level correctness of any encoder/decoder, Len()==bytes emitted, equality after a round trip and RFC well-formedness of emitted messages are value-level and not decided.",
 		Run: func(c *Ctx) {
 			c.ruleRatchets("C04")
+			c.ruleCheckedIsEmitted("E3.checked-is-emitted")
+			c.ruleMaskAgreement("E3.mask-agreement", []string{"pkg/packet/bgp"}, 1)
 			c.ruleDecodeProduces("E4.decode-produces", []string{"pkg/packet/bgp"}, 150)
 			c.ruleAttrTables()
 			c.rulePurity("E2d.pure", []string{"pkg/packet/bgp"}, 500)
@@ -231,6 +233,8 @@ func init() {
 		Not:  "Crash-freedom and termination of the decoders, and round-trip equality, are value-level and not decided. ZAPI field symmetry is excluded (request and response bodies are directional).",
 		Run: func(c *Ctx) {
 			c.ruleRatchets("C19")
+			c.ruleMaskAgreement("E3.mask-agreement", []string{"pkg/packet/bfd", "pkg/packet/bmp", "pkg/packet/mrt", "pkg/packet/rtr", "pkg/zebra"}, 1)
+			c.rulePackSerializeSameOptions("E6.pack-serialize-same-options", 2)
 			c.ruleInputImmutable("E2c.input", []string{"pkg/packet/mrt", "pkg/packet/bmp", "pkg/packet/rtr", "pkg/packet/bfd", "pkg/zebra"}, 45)
 			c.ruleDecodeProduces("E4.decode-produces", []string{"pkg/packet/bmp", "pkg/packet/mrt", "pkg/packet/rtr"}, 20)
 			c.ruleSplitters()
